@@ -5,7 +5,7 @@ META = dict(
                 "comment; extractColor's kept text with the input minus those matches; span offsets must be ordered, non-overlapping, in range.",
     functions=["fzf.nextAnsiEscapeSequence", "fzf.matchControlSequence", "fzf.matchOperatingSystemCommand", "fzf.isCtrlSeqStart", "fzf.extractColor",
                "fzf.interpretCode", "fzf.parseAnsiCode", "unicode/utf8.DecodeRuneInString", "unicode/utf8.DecodeLastRuneInString"],
-    outside=["strings longer than the bound", "colour merging in colorOffsets (display side)"],
+    outside=["strings longer than the bound", "colour merging in colorOffsets (display side)", "SGR lists with empty or truncated parameters, or mixing ';' and ':' separators (not well-formed)"],
     models=["strings.Builder executed as real code (copyCheck skipped)", "utf8.* executed as real code"],
     assumptions=["the reference regex is the one in the function's doc comment (a Go string literal), plus the OSC-8 `ESC ] 8 ; ; ESC` close form documented in matchOperatingSystemCommand"],
 )
@@ -24,4 +24,9 @@ def suites(tier):
     for cfg in product(bytes=[0], state=[0, 1]):
         cfg.update(nmin=0, nmax=3 if tier == "quick" else 4)
         jobs.append(dict(id=jid("strip", cfg), func="zzH_C11_strip", cfg=cfg))
+    cfg = dict(payload=2 if tier == "quick" else 3, tail=1 if tier == "quick" else 2)
+    jobs.append(dict(id=jid("osc", cfg), func="zzH_C11_osc", cfg=cfg))
+    for colon in (0, 1):
+        cfg = dict(colon=colon, items=2 if tier == "quick" else 3)
+        jobs.append(dict(id=jid("sgr", cfg), func="zzH_C11_sgr", cfg=cfg))
     return [src_suite("src", jobs)]
